@@ -994,7 +994,6 @@ class TreeTransform(Generic[TreeFnT]):
           '`output_keys` is deprecated, use positional arguments or'
           ' `assign_keys` instead.'
       )
-    assign_keys = assign_keys or output_keys
     fn = tree_fns.Assign(
         output_keys=assign_keys,
         fn=fn,
@@ -1011,7 +1010,11 @@ class TreeTransform(Generic[TreeFnT]):
       output_keys: TreeMapKeys | None = None,
       batch_size: int = 0,
   ) -> TreeTransform:
-    output_keys = output_keys or input_keys
+    # A key may be falsy (index 0, the integer key 0, an empty string).
+    if output_keys is None or (
+        isinstance(output_keys, (tuple, list)) and not output_keys
+    ):
+      output_keys = input_keys
     fn = tree_fns.Select(
         input_keys=input_keys, output_keys=output_keys, batch_size=batch_size
     )
